@@ -380,8 +380,8 @@ func (c *Client) Register(topic string) error {
 func (c *Client) subscribe(topicName string, topicIDType uint8, topicID uint16, qos uint8, callback MessageHandlerFunc) (err error) {
 	// The MQTT broker may send messages matching the subscription before
 	// its SUBACK (e.g. retained ones), hence the callback must be in place
-	// before the SUBSCRIBE is sent. If the subscription fails, the previous
-	// callback of the topic (if any) is restored.
+	// before the SUBSCRIBE is sent. If the subscription fails, the callback
+	// is withdrawn again.
 	var filter string
 	filterKnown := true
 	switch topicIDType {
@@ -395,21 +395,16 @@ func (c *Client) subscribe(topicName string, topicIDType uint8, topicID uint16, 
 		filterKnown = false
 	}
 	if filterKnown {
-		route := strings.Split(filter, "/")
-		previous := c.messageHandlers.swap(route, callback)
+		handler := c.messageHandlers.push(strings.Split(filter, "/"), callback)
 		defer func() {
 			if err != nil {
-				if previous != nil {
-					c.messageHandlers.store(route, previous.callback)
-				} else {
-					c.messageHandlers.delete(route)
-				}
+				c.messageHandlers.revoke(handler)
 			}
 		}()
 	}
 
 	msgID, _ := c.msgID.Next()
-	transaction := newSubscribeTransaction(c, msgID, callback)
+	transaction := newSubscribeTransaction(c, msgID)
 	subscribe := pkts1.NewSubscribe(topicName, topicID, false, qos, topicIDType)
 	subscribe.SetMessageID(msgID)
 	c.transactions.Store(msgID, transaction)
@@ -444,7 +439,9 @@ func (c *Client) SubscribePredefined(topicID uint16, qos uint8, callback Message
 
 func (c *Client) unsubscribe(topicName string, topicIDType uint8, topicID uint16) error {
 	msgID, _ := c.msgID.Next()
-	transaction := newUnsubscribeTransaction(c, msgID)
+	// Callbacks of Subscribe calls which start later than this call
+	// must survive its UNSUBACK.
+	transaction := newUnsubscribeTransaction(c, msgID, c.messageHandlers.mark())
 	unsubscribe := pkts1.NewUnsubscribe(topicName, topicID, topicIDType)
 	unsubscribe.SetMessageID(msgID)
 	c.transactions.Store(msgID, transaction)
